@@ -22,9 +22,11 @@
 EXTENDS Naturals, Sequences, FiniteSets, TLC
 SubjKind == {"builtin", "stdpkg"}
 PkgDecl   == {"none", "func", "var"}               \* package block: a function / a variable (func-typed for a builtin name, with like-named methods for a package name)
-FileDecl  == {"none", "realImport", "fakeImport", "dotReal", "dotFake"}
-             \* file block: import of the real std package / of another package under that name; dot-import of the real package /
-             \* of another package with the same package NAME (the member is then called unqualified)
+FileDecl  == {"none", "realImport", "fakeImport", "fakeNamed", "fakeNamedAs", "dotReal", "dotFake"}
+             \* file block: import of the real std package / of another package under that name (fakeImport: renamed import;
+             \* fakeNamed: a package whose declared NAME is the std one's, e.g. example.com/app/internal/log; fakeNamedAs: that
+             \* package under another local name); dot-import of the real package / of a same-named other package (the member is
+             \* then called unqualified)
 ParamDecl == {"none", "param"}
 LocalDecl == {"none", "local"}
 Shapes    == {"normal", "zeroArgs"}
@@ -49,7 +51,7 @@ WellFormedP(k, va, p, f, pa, l, sh) ==
 
 Init == /\ kind \in SubjKind /\ variadic \in BOOLEAN /\ pkgD \in PkgDecl /\ fileD \in FileDecl /\ paramD \in ParamDecl /\ localD \in LocalDecl /\ shape \in Shapes
         /\ (kind = "builtin" => fileD = "none")            \* a builtin is not reached through a package name: nothing to render
-        /\ (fileD \in {"dotReal", "dotFake"} => (kind = "stdpkg" /\ pkgD = "none" /\ paramD = "none" /\ localD = "none"))   \* dot-import cases are swept on their own
+        /\ (fileD \in {"dotReal", "dotFake", "fakeNamedAs"} => (kind = "stdpkg" /\ pkgD = "none" /\ paramD = "none" /\ localD = "none"))   \* dot-import cases are swept on their own
         /\ wellFormed = WellFormedP(kind, variadic, pkgD, fileD, paramD, localD, shape)
         /\ resolved = ResolvedP(pkgD, fileD, paramD, localD)
         /\ realAPI = RealAPIP(kind, pkgD, fileD, paramD, localD)
@@ -58,8 +60,10 @@ Spec == Init /\ [][Next]_vars
 
 Recognises(style) == CASE style = "bySpelling" -> TRUE
                        [] style = "byPkgObject" -> (kind = "stdpkg" /\ resolved \in {"realImport", "dotReal"}) \/ (kind = "builtin")
+                       [] style = "byPkgName" -> (kind = "stdpkg" /\ resolved \in {"realImport", "dotReal", "fakeNamed", "fakeNamedAs", "dotFake"}) \/ (kind = "builtin" /\ resolved = "universe")
                        [] style = "byObject" -> realAPI
 OnlyRealByObject == (wellFormed /\ Recognises("byObject")) => realAPI
 OnlyRealBySpelling == (wellFormed /\ Recognises("bySpelling")) => realAPI
 OnlyRealByPkgObject == (wellFormed /\ Recognises("byPkgObject")) => realAPI
+OnlyRealByPkgName == (wellFormed /\ Recognises("byPkgName")) => realAPI      \* the imported package's declared name instead of its path
 ==============================================================================
